@@ -11,6 +11,7 @@ import ScpiVerif.Model.Result
 import ScpiVerif.Model.Prim
 import ScpiVerif.Model.Regs
 import ScpiVerif.Model.Fifo
+import ScpiVerif.Model.Builtin
 
 namespace ScpiVerif.Ctx
 open ScpiVerif.Lexer (Bytes Token TokType)
@@ -42,6 +43,7 @@ inductive SOp where
   | iNums (n : Nat) (dflt : Int)
   | onFail (stop : Bool)                                      -- a failed reader makes the handler return ERR at once
   | ret (ok : Bool)
+  | builtin (b : Builtin)                                     -- one of the library's own handlers (SCPI_Core*, SCPI_System*, SCPI_Status*)
 deriving Repr, DecidableEq
 
 structure Cmd where
@@ -66,6 +68,8 @@ inductive Ev where
   | error (code : Int) (info : Option Bytes)                   -- error pushed (code, device-dependent text handed in)
   | input (result : Bool)                                      -- return value of one SCPI_Input call
   | parseMsg (msg : Bytes)                                     -- SCPI_Parse entered with this message (verification hook)
+  | noError                                                    -- error callback with code 0 (SCPI_ErrorEmitEmpty: the queue became empty)
+  | reset                                                      -- interface->reset called (*RST)
 deriving Repr, DecidableEq
 
 structure Ctx where
@@ -299,6 +303,71 @@ def paramNumber (c : Ctx) (mand : Bool) : Ctx × Ev :=
       (c, .pNumber r true tag [] 0 1 1 10)
     | _ => (pushError c (-104) none, fail)
 
+/-! ### the library's own handlers (ieee488.c, minimal.c) -/
+
+/-- install the new status state; `interface->error(context, 0)` of SCPI_ErrorEmitEmpty is an event (the
+status-side model logs the callback in `errcb`) -/
+def noErrorCb (c : Ctx) (regs : Regs.St) : Ctx :=
+  let fired := regs.errcb.length > c.regs.errcb.length
+  let c := { c with regs := regs }
+  if fired then emit c .noError else c
+
+/-- SCPI_ResultInt32 of a non-negative value -/
+def resultNat32 (c : Ctx) (n : Nat) : Ctx := { c with out := Result.resultIntBaseSign c.out 32 n 10 true }
+
+/-- SCPI_ResultInt32(context, SCPI_RegGet(context, reg)) -/
+def resultReg (c : Ctx) (reg : Nat) : Ctx := resultNat32 c (Regs.get c.regs reg).toNat
+
+/-- one status-register operation of Model/Regs.lean on the context -/
+def regStep (c : Ctx) (op : Regs.Op) : Ctx := { c with regs := Regs.step c.regs op }
+
+/-- `if (SCPI_ParamInt32(context, &v, TRUE)) SCPI_RegSet(context, reg, (scpi_reg_val_t) v);` — the cast
+keeps the low 16 bits; returns the reader's result -/
+def regFromParam (c : Ctx) (reg : Nat) : Ctx × Bool :=
+  let (c, ok, v) := paramInt c 32 true true
+  if ok then (regStep c (.set reg (Regs.bv v)), true) else (c, false)
+
+/-- the string SCPI_CoreIdnQ hands to SCPI_ResultMnemonic for field `i` -/
+def idnField (fields : List (Option Bytes)) (i : Nat) : Bytes :=
+  match fields.getD i none with
+  | some s => s.takeWhile (· ≠ 0)
+  | none => [48]
+
+/-- the handlers of ieee488.c / minimal.c: new context and the handler's result (true = SCPI_RES_OK) -/
+def runBuiltin (c : Ctx) : Builtin → Ctx × Bool
+  | .cls => (noErrorCb { c with eq := c.eq.clear } (Regs.step c.regs .cls), true)
+  | .ese => regFromParam c Regs.ESE
+  | .eseQ => (resultReg c Regs.ESE, true)
+  | .esrQ => (regStep (resultReg c Regs.ESR) .esrQ, true)
+  | .idnQ fields =>
+    ({ c with out := (List.range 4).foldl (fun o i => Result.resultCharacters o (idnField fields i)) c.out }, true)
+  | .opc => (regStep c (.setBits Regs.ESR (Regs.bv Gen.ESR_OPC)), true)
+  | .opcQ => (resultNat32 c 1, true)
+  | .rst => (emit c .reset, true)                   -- the harness's reset callback returns SCPI_RES_OK
+  | .sre => regFromParam c Regs.SRE
+  | .sreQ => (resultReg c Regs.SRE, true)
+  | .stbQ => (resultReg c Regs.STB, true)
+  | .tstQ => (resultNat32 c 0, true)
+  | .wai => (c, true)
+  | .stub => (c, true)
+  | .stubQ => (resultNat32 c 0, true)
+  | .versQ => ({ c with out := Result.resultCharacters c.out (Result.bytesOf Gen.STD_VERSION) }, true)
+  | .errNextQ =>
+    -- SCPI_ErrorPop (fifo_remove, SCPI_ErrorEmitEmpty), SCPI_ResultError, free of the text
+    let (eq, e) := c.eq.sysErrNext
+    let c := noErrorCb { c with eq := eq } (Regs.step c.regs .errPop)
+    ({ c with out := Result.resultError c.out e.code (Result.errorTranslate e.code) [e.info.map (·.2)] }, true)
+  | .errCountQ => (resultNat32 c c.eq.count, true)
+  | .quesCondQ => (resultReg c Regs.QUESC, true)
+  | .quesEvenQ => (regStep (resultReg c Regs.QUES) .quesQ, true)
+  | .quesEnabQ => (resultReg c Regs.QUESE, true)
+  | .quesEnab => ((regFromParam c Regs.QUESE).1, true)          -- returns SCPI_RES_OK whatever the reader said
+  | .operCondQ => (resultReg c Regs.OPERC, true)
+  | .operEvenQ => (regStep (resultReg c Regs.OPER) .operQ, true)
+  | .operEnabQ => (resultReg c Regs.OPERE, true)
+  | .operEnab => ((regFromParam c Regs.OPERE).1, true)
+  | .pres => (regStep c .preset, true)
+
 /-! ### handler scripts -/
 
 structure HState where
@@ -356,6 +425,10 @@ def runOp (h : HState) (op : SOp) : HState :=
     | none => h
   | .onFail s => { h with stopOnFail := s }
   | .ret ok => { h with result := ok, done := true }
+  | .builtin b =>
+    -- a handler of the library: its return value is the script's result when it is SCPI_RES_ERR
+    let (c, ok) := runBuiltin c b
+    if ok then { h with c := c } else { h with c := c, result := false, done := true }
 
 def runScript (c : Ctx) (s : List SOp) : Ctx × Bool :=
   let h := s.foldl runOp { c := c }
